@@ -21,6 +21,7 @@ from .common import (
     MAGIC_LAST,
     MAGIC_NOWIKI_CHAR,
     MAGIC_SQUOTE_CHAR,
+    URL_STARTS,
     nowiki_quote,
 )
 from .parserfns import PARSER_FUNCTIONS
@@ -941,7 +942,11 @@ def text_fn(ctx: "Wtp", token: str) -> None:
     # be links if the content looks like a URL."""
     if node.kind == NodeKind.URL:
         if not node.largs and not node.children:
-            if not re.match(r"(https?:|mailto:|//)", token):
+            # ":" is a token of its own, so of "mailto:x" or "ftp://x" only
+            # the scheme name arrives here first
+            if not re.match(r"(https?:|mailto:|//)", token) and not any(
+                u.startswith(token + ":") for u in URL_STARTS
+            ):
                 # It does not look like a URL
                 ctx.parser_stack.pop()
                 node2 = ctx.parser_stack[-1]
